@@ -13,6 +13,7 @@ def run(chk, cid, prog, eff, cfgname):
     fl = Flags(prog, f, 'd')
     fl.enum('Fact', '$1->Fact', ['DOFACT', 'SamePattern', 'SamePattern_SameRowPerm', 'FACTORED'])
     fl.enum('SymmetricMode', '$1->SymmetricMode', ['NO', 'YES'])
+    fl.enum('ColPerm', '$1->ColPerm', ['NATURAL', 'MMD_ATA', 'MMD_AT_PLUS_A', 'COLAMD', 'MY_PERMC'])     # the post-ordering may not depend on how perm_c was obtained
     eng = r3.Engine(prog, f, fl.flags, callees=lambda n: n in ('sp_coletree', 'TreePostorder', 'sp_symetree', 'at_plus_a', 'getata'), eff=eff)
     eng.retfresh = {'TreePostorder'}
     leaves = eng.run()
@@ -41,7 +42,7 @@ def run(chk, cid, prog, eff, cfgname):
                      'SymmetricMode = YES: no post-ordering; perm_c and etree keep the caller\'s numbering', (post + w_pc + w_et)[0]['line'] if (post + w_pc + w_et) else None)
             continue
         if not ex.check(lf, len(post) == 1 and post[0]['args'][1] == ('p', ppos(f, 'etree')) and lf.must_precede([col[0]['node']], post[0]['node']) if col else False,
-                        'postorder-of-the-etree', ['SymmetricMode'], 'SymmetricMode = NO: TreePostorder(n, etree) must run after the tree is computed'):
+                        'postorder-of-the-etree', ['SymmetricMode', 'ColPerm'], 'SymmetricMode = NO: TreePostorder(n, etree) must run after the tree is computed, whatever ColPerm is (relax_snode in ?gstrf needs a post-ordered tree)'):
             continue
         # the post array: value returned by TreePostorder
         pv = None
